@@ -127,7 +127,7 @@ MUTANTS = [
         "        None => {\n            let _ = parent_pointer;\n            bail!(\"Call method error: no method `{}`\", method_name)\n        }\n    }")]),
     dict(id="M52", props=["C14"], what="user-method arity unchecked", edits=[(I,
         "    bail_if!(argument_pointers.len() != parameters.to_usize() - 1,\n             \"Method `{}` requires {} arguments, but {} were supplied\",\n             method_name, parameters, argument_pointers.len());\n", "")]),
-    dict(id="MA0", props=["C14", "C10"], what="set_field creates a missing field", edits=[(H,
+    dict(id="MA0", props=["C10"], what="set_field creates a missing field", edits=[(H,
         "        self.fields.insert(name.to_owned(), pointer)\n            .with_context(|| format!(\"There is no field named `{}` in object `{}`\", name, self))",
         "        Ok(self.fields.insert(name.to_owned(), pointer).unwrap_or(Pointer::Null))")]),
     # ---------------------------------------------------------------- C15
